@@ -377,4 +377,400 @@ theorem quad_lt (va vb vc vd : Nat) (ra : va < 256) (rb : vb < 256) (rc : vc < 2
   have : (2 : Nat) ^ 32 = 4294967296 := by decide
   omega
 
+/-! ### the other argument types and the typed constructors -/
+
+/-- integer station numbers 0..255 -/
+theorem fields_int (n : Int) (h0 : 0 ≤ n) (h1 : n < 256) :
+    ofInt n = .ok ⟨.localStation, none, some [UInt8.ofNat n.toNat], none⟩ ∧
+    localStationInt n = .ok ⟨.localStation, none, some [UInt8.ofNat n.toNat], none⟩ := by
+  have : ¬ (n < 0 ∨ n ≥ 256) := by omega
+  simp [ofInt, localStationInt, this, mkLocalStation]
+
+/-- raw octets of any length are kept as they are; six octets also yield IP helper fields -/
+theorem fields_bytes (bs : Bytes) :
+    ∃ info, ofBytes bs = .ok ⟨.localStation, none, some bs, info⟩ ∧
+      (bs.length ≠ 6 → info = none) ∧
+      (bs.length = 6 → ∃ i, info = some i ∧ i.ip = beVal (bs.take 4) ∧ i.port = beVal (bs.drop 4) ∧
+        i.mask = 4294967295 ∧ i.subnet = some (subnetOf i.ip longMask)) := by
+  unfold ofBytes
+  by_cases h : bs.length = 6
+  · simp [h, longMask]
+  · simp [h, mkLocalStation]
+
+/-- `(host, port)` with an integer host: the host is taken modulo 2^32 (the
+    code's `addr & _long_mask`), the port must be 0..65535 -/
+theorem fields_tuple_int (h p : Int) (h0 : 0 ≤ p) (h1 : p ≤ 65535) :
+    ∃ info, ofTupleInt h p = .ok ⟨.localStation, none,
+      some (be32 (h % 4294967296).toNat ++ be16 p.toNat), some info⟩ ∧
+      info.ip = (h % 4294967296).toNat ∧ info.port = p.toNat ∧
+      info.tupHost = ntoa (h % 4294967296).toNat := by
+  have : ¬ (p < 0 ∨ p > 65535) := by omega
+  simp [ofTupleInt, this, tupleAddr]
+
+/-- `(host, port)` with a dotted host string -/
+theorem fields_tuple_str (hs : List Char) (ip : Nat) (p : Int) (hne : hs ≠ [])
+    (hip : inetAton hs = some ip) (h0 : 0 ≤ p) (h1 : p ≤ 65535) :
+    ∃ info, ofTupleStr hs p = .ok ⟨.localStation, none, some (be32 ip ++ be16 p.toNat), some info⟩ ∧
+      info.ip = ip ∧ info.port = p.toNat ∧ info.tupHost = hs := by
+  have : ¬ (p < 0 ∨ p > 65535) := by omega
+  simp [ofTupleStr, this, hne, hip, tupleAddr]
+
+example : (ofTupleStr "1.2.3.4".toList 47808).toOption.map eqKey =
+    some (2, none, some [1, 2, 3, 4, 0xBA, 0xC0]) := by decide +kernel
+
+/-- `Address(net, x)`: a local station / local broadcast becomes remote on `net` -/
+theorem fields_ctor2 (net : Int) (a : Addr) (h0 : 0 ≤ net) (h1 : net ≤ 65534) :
+    (a.ty = .localStation → ctor2 net (.ok a) =
+        .ok { a with ty := .remoteStation, net := some net.toNat }) ∧
+    (a.ty = .localBroadcast → ctor2 net (.ok a) =
+        .ok { a with ty := .remoteBroadcast, net := some net.toNat }) ∧
+    (a.ty ≠ .localStation → a.ty ≠ .localBroadcast → ctor2 net (.ok a) = .error .valueRange) := by
+  have : ¬ (net < 0 ∨ net ≥ 65535) := by omega
+  refine ⟨?_, ?_, ?_⟩
+  · intro h; simp [ctor2, this, h]
+  · intro h; simp [ctor2, this, h]
+  · intro h h'; simp [ctor2, this, h, h']
+
+/-- RemoteStation / RemoteBroadcast -/
+theorem fields_typed (net n : Int) (bs : Bytes) (h0 : 0 ≤ net) (h1 : net ≤ 65534)
+    (hn0 : 0 ≤ n) (hn1 : n < 256) :
+    remoteStationInt net n = .ok ⟨.remoteStation, some net.toNat, some [UInt8.ofNat n.toNat], none⟩ ∧
+    remoteStationBytes net bs = .ok ⟨.remoteStation, some net.toNat, some bs, none⟩ ∧
+    remoteBroadcast net = .ok ⟨.remoteBroadcast, some net.toNat, none, none⟩ := by
+  have a : ¬ (net < 0 ∨ net ≥ 65535) := by omega
+  have b : ¬ (n < 0 ∨ n ≥ 256) := by omega
+  simp [remoteStationInt, remoteStationBytes, remoteBroadcast, a, b, mkRemoteStation, mkRemoteBroadcast]
+
+/-! ## range_refused -/
+
+/-- a station number above 255 is refused -/
+theorem range_refused_station (ds : List Char) (hne : ds ≠ []) (hd : allDigits ds = true)
+    (h : decVal ds > 255) : parse ds = .error .valueRange := by
+  have hs : ds ≠ ['*'] := by intro e; subst e; revert hd; decide
+  have h1 : ∀ r, ds ≠ '*' :: ':' :: r := by
+    intro r e; subst e; exact absurd (head_isDig hd) (by simp [isDig_star])
+  rw [parse_plain ds (.dec ds) hs (noNl_of_allDigits ds hd) (matchBody_dec ds hne hd) h1
+    (by simp [digits_self ds hd])]
+  have : decVal ds ≥ 256 := by omega
+  simp [interp, interpPfx, interpBody, this]
+
+example : parse "256".toList = .error .valueRange := by decide
+
+/-- `net:BODY` with a network above 65534 is refused whatever the body is -/
+theorem range_refused_net (ns r : List Char) (b : Body) (hn : ns ≠ [] ∧ allDigits ns = true)
+    (hnl : noNl r = true) (hb : matchBody r = some b) (h : decVal ns > 65534) :
+    parse (ns ++ ':' :: r) = .error .valueRange := by
+  rw [parse_net ns r b hn.1 hn.2 hnl hb]
+  have : decVal ns ≥ 65535 := by omega
+  cases b <;> simp [interp, interpPfx, this]
+
+example : parse "65535:*".toList = .error .valueRange := by decide
+example : parse "65535:1.2.3.4".toList = .error .valueRange := by decide +kernel
+
+/-- `net:station` is refused when either number is out of range -/
+theorem range_refused_net_station (ns ds : List Char) (hn : ns ≠ [] ∧ allDigits ns = true)
+    (hd : ds ≠ [] ∧ allDigits ds = true) (h : decVal ns > 65534 ∨ decVal ds > 255) :
+    parse (ns ++ ':' :: ds) = .error .valueRange := by
+  rw [parse_net ns ds (.dec ds) hn.1 hn.2 (noNl_of_allDigits ds hd.2) (matchBody_dec ds hd.1 hd.2)]
+  by_cases h1 : decVal ns ≥ 65535
+  · simp [interp, interpPfx, h1]
+  · have : decVal ds ≥ 256 := by omega
+    simp [interp, interpPfx, interpBody, h1, this]
+
+example : parse "1:256".toList = .error .valueRange := by decide
+example : parse "70000:5".toList = .error .valueRange := by decide
+
+/-- a mask length above 32 is refused (with or without a network prefix) -/
+theorem range_refused_mask (a b c d : List Char) (mask port : Option (List Char))
+    (h : optVal mask 32 > 32) : ∀ p, ∃ e, interp (p, .ip a b c d mask port) = .error e := by
+  intro p
+  have e2 : decVal (mask.getD ['3', '2']) = optVal mask 32 := by
+    cases mask with
+    | none => decide
+    | some ds => rfl
+  have hip : ∃ e, ipFromStr a b c d mask port = .error e := by
+    unfold ipFromStr
+    simp only [e2]
+    by_cases hp : decVal (port.getD ['4', '7', '8', '0', '8']) > 65535
+    · exact ⟨.valueRange, by simp [hp]⟩
+    · cases hq : inetAton4 a b c d with
+      | none => exact ⟨.other, by simp [hp]⟩
+      | some ip => exact ⟨.valueRange, by simp [hp, h]⟩
+  obtain ⟨e, he⟩ := hip
+  have he' : interpBody (.ip a b c d mask port) = .error e := by simp [interpBody, he]
+  unfold interp
+  cases interpPfx p (.ip a b c d mask port) with
+  | error e' => exact ⟨e', rfl⟩
+  | ok v => exact ⟨e, by simp [he']⟩
+
+theorem range_refused_mask_text (a b c d : List Char) (mask port : Option (List Char))
+    (ha : a ≠ [] ∧ allDigits a = true) (hb : b ≠ [] ∧ allDigits b = true)
+    (hc : c ≠ [] ∧ allDigits c = true) (hd : d ≠ [] ∧ allDigits d = true)
+    (hm : optDigits mask = true) (hp : optDigits port = true) (h : optVal mask 32 > 32) :
+    (∃ e, parse (ipText a b c d mask port) = .error e) ∧
+    (∀ ns, ns ≠ [] → allDigits ns = true →
+      ∃ e, parse (ns ++ ':' :: ipText a b c d mask port) = .error e) := by
+  have hbody := matchBody_ip a b c d mask port ha hb hc hd hm hp
+  have hnl := noNl_ipText a b c d mask port ha.2 hb.2 hc.2 hd.2 hm hp
+  constructor
+  · have hdig : digits (ipText a b c d mask port) = (a, '.' :: (b ++ '.' :: (c ++ '.' :: (d ++
+        (optSuffix '/' mask ++ optSuffix ':' port))))) :=
+      digits_append _ _ ha.2 (by simp [noDigHead, isDig_dot])
+    have hhead : ∀ r, ipText a b c d mask port ≠ '*' :: r := by
+      obtain ⟨hne, hall⟩ := ha
+      cases a with
+      | nil => exact absurd rfl hne
+      | cons x t =>
+        have := ne_star_of_isDig (head_isDig hall)
+        intro r; simp [ipText, this]
+    rw [parse_plain _ _ (hhead _) hnl hbody (fun r => hhead _) (by simp [hdig])]
+    exact range_refused_mask a b c d mask port h _
+  · intro ns h1 h2
+    rw [parse_net ns _ _ h1 h2 hnl hbody]
+    exact range_refused_mask a b c d mask port h _
+
+example : ∃ e, parse "1.2.3.4/33".toList = .error e := ⟨.valueRange, by decide +kernel⟩
+
+/-- a port above 65535 is refused (repaired behaviour) -/
+theorem range_refused_port (a b c d : List Char) (mask port : Option (List Char))
+    (h : optVal port 47808 > 65535) :
+    interpBody (.ip a b c d mask port) = .error .valueRange := by
+  have e1 : decVal (port.getD ['4', '7', '8', '0', '8']) = optVal port 47808 := by
+    cases port with
+    | none => decide
+    | some ds => rfl
+  simp [interpBody, ipFromStr, e1, h]
+
+example : parse "1.2.3.4:65536".toList = .error .valueRange := by decide +kernel
+
+/-- integer stations outside 0..255 are refused by every constructor -/
+theorem range_refused_int (n : Int) (h : n < 0 ∨ n > 255) :
+    ofInt n = .error .valueRange ∧ localStationInt n = .error .valueRange ∧
+    ∀ net, remoteStationInt net n = .error .valueRange := by
+  have : n < 0 ∨ n ≥ 256 := by omega
+  refine ⟨by simp [ofInt, this], by simp [localStationInt, this], ?_⟩
+  intro net; unfold remoteStationInt; split
+  · rfl
+  · simp
+
+/-- networks outside 0..65534 are refused by every constructor that takes
+    one, including the two-argument `Address(net, x)` (repaired behaviour) -/
+theorem range_refused_ctor (net : Int) (h : net < 0 ∨ net > 65534) :
+    (∀ d, ctor2 net d = .error .valueRange) ∧ remoteBroadcast net = .error .valueRange ∧
+    (∀ n, remoteStationInt net n = .error .valueRange) ∧
+    (∀ bs, remoteStationBytes net bs = .error .valueRange) := by
+  have : net < 0 ∨ net ≥ 65535 := by omega
+  simp [ctor2, remoteBroadcast, remoteStationInt, remoteStationBytes, this]
+
+example : ctor2 70000 (ofInt 5) = .error .valueRange := by decide
+
+/-- tuple ports outside 0..65535 are refused (repaired behaviour) -/
+theorem range_refused_tuple_port (p : Int) (h : p < 0 ∨ p > 65535) :
+    (∀ hs, ofTupleStr hs p = .error .valueRange) ∧ (∀ hi, ofTupleInt hi p = .error .valueRange) := by
+  simp [ofTupleStr, ofTupleInt, h]
+
+/-- `*:<station>` is refused (repaired behaviour): `*` as a network is only `*:*` -/
+theorem star_net_refused (b : Body) (h : b ≠ .star) : interp (.star, b) = .error .valueRange := by
+  cases b <;> simp_all [interp, interpPfx]
+
+example : parse "*:5".toList = .error .valueRange := by decide
+
+/-! ## well-formed addresses: what the property quantifies over -/
+
+def stationOK : Option Bytes → Prop
+  | some bs => bs ≠ []
+  | none => False
+
+def netOK : Option Nat → Prop
+  | some n => n < 65535
+  | none => False
+
+instance (o : Option Bytes) : Decidable (stationOK o) := by
+  cases o <;> unfold stationOK <;> exact inferInstance
+
+instance (o : Option Nat) : Decidable (netOK o) := by
+  cases o <;> unfold netOK <;> exact inferInstance
+
+/-- the addresses the library hands out: a network 0..65534 exactly on the
+    remote types, one or more octets exactly on the station types -/
+def WFAddr (a : Addr) : Prop :=
+  match a.ty with
+  | .null => False
+  | .localBroadcast => a.net = none ∧ a.addr = none
+  | .globalBroadcast => a.net = none ∧ a.addr = none
+  | .localStation => a.net = none ∧ stationOK a.addr
+  | .remoteBroadcast => netOK a.net ∧ a.addr = none
+  | .remoteStation => netOK a.net ∧ stationOK a.addr
+
+instance (a : Addr) : Decidable (WFAddr a) := by
+  unfold WFAddr; cases a.ty <;> exact inferInstance
+
+/-- the bodies `matchBody` returns carry at least one octet -/
+def bodyOK : Body → Prop
+  | .hex bs => bs ≠ []
+  | _ => True
+
+theorem matchIPTail_ok (a s : List Char) (b : Body) (h : matchIPTail a s = some b) : bodyOK b := by
+  unfold matchIPTail at h
+  simp only at h
+  repeat' split at h
+  all_goals first
+    | (simp at h; done)
+    | (simp at h; obtain ⟨_, rfl⟩ := h; trivial)
+    | (simp at h; subst h; trivial)
+
+theorem matchBody_ok (s : List Char) (b : Body) (h : matchBody s = some b) : bodyOK b := by
+  unfold matchBody at h
+  simp only at h
+  repeat' split at h
+  all_goals first
+    | (simp at h; done)
+    | exact matchIPTail_ok _ _ _ h
+    | (simp at h; subst h; trivial)
+
+theorem matchCombined_ok (s : List Char) (p : Pfx) (b : Body) (h : matchCombined s = some (p, b)) :
+    bodyOK b := by
+  unfold matchCombined at h
+  repeat' split at h
+  all_goals (simp at h; exact matchBody_ok _ _ h.1)
+
+theorem be_ne_nil (ip p : Nat) : be32 ip ++ be16 p ≠ [] := by simp [be32]
+
+theorem interp_wf (p : Pfx) (b : Body) (a : Addr) (hb : bodyOK b) (h : interp (p, b) = .ok a) :
+    WFAddr a := by
+  unfold interp at h
+  cases b with
+  | star =>
+    cases p with
+    | none => simp [interpPfx, interpBody] at h; subst h; simp [WFAddr]
+    | star => simp [interpPfx, interpBody] at h; subst h; simp [WFAddr]
+    | net ds =>
+      by_cases hn : decVal ds ≥ 65535
+      · simp [interpPfx, hn] at h
+      · simp [interpPfx, interpBody, hn] at h; subst h
+        simp [WFAddr, netOK]; omega
+  | dec ds =>
+    by_cases hd : decVal ds ≥ 256
+    · cases p <;> simp [interpPfx, interpBody, hd] at h <;> (split at h <;> simp at h)
+    · cases p with
+      | none => simp [interpPfx, interpBody, hd] at h; subst h; simp [WFAddr, stationOK]
+      | star => simp [interpPfx] at h
+      | net ns =>
+        by_cases hn : decVal ns ≥ 65535
+        · simp [interpPfx, hn] at h
+        · simp [interpPfx, interpBody, hn, hd] at h; subst h
+          simp [WFAddr, netOK, stationOK]; omega
+  | hex bs =>
+    have : bs ≠ [] := hb
+    cases p with
+    | none => simp [interpPfx, interpBody] at h; subst h; simp [WFAddr, stationOK, this]
+    | star => simp [interpPfx] at h
+    | net ns =>
+      by_cases hn : decVal ns ≥ 65535
+      · simp [interpPfx, hn] at h
+      · simp [interpPfx, interpBody, hn] at h; subst h
+        simp [WFAddr, netOK, stationOK, this]; omega
+  | ip x y z w mask port =>
+    cases hip : ipFromStr x y z w mask port with
+    | error e => cases p <;> simp [interpPfx, interpBody, hip] at h <;> (split at h <;> simp at h)
+    | ok v =>
+      obtain ⟨bs, info⟩ := v
+      have hbs : bs ≠ [] := by
+        unfold ipFromStr at hip
+        simp only at hip
+        split at hip
+        · simp at hip
+        · split at hip
+          · simp at hip
+          · split at hip
+            · simp at hip
+            · simp at hip; rw [← hip.1]; exact be_ne_nil _ _
+      cases p with
+      | none => simp [interpPfx, interpBody, hip] at h; subst h; simp [WFAddr, stationOK, hbs]
+      | star => simp [interpPfx] at h
+      | net ns =>
+        by_cases hn : decVal ns ≥ 65535
+        · simp [interpPfx, hn] at h
+        · simp [interpPfx, interpBody, hn, hip] at h; subst h
+          simp [WFAddr, netOK, stationOK, hbs]; omega
+
+theorem hexBytes_pair_len (a b : Char) (x : Bytes) (h : hexBytes [a, b] = some x) : x ≠ [] := by
+  simp only [hexBytes] at h
+  split at h
+  · simp at h; subst h; simp
+  · simp at h
+
+theorem ethGroups_ne_nil (n : Nat) (s : List Char) (bs : Bytes) (h : ethGroups n s = some bs) :
+    bs ≠ [] := by
+  cases n with
+  | zero =>
+    unfold ethGroups at h
+    split at h
+    · exact hexBytes_pair_len _ _ _ h
+    · simp at h
+  | succ n =>
+    unfold ethGroups at h
+    split at h
+    · split at h
+      · rename_i x y hx _
+        simp at h; subst h
+        have := hexBytes_pair_len _ _ _ hx
+        simp [this]
+      · simp at h
+    · simp at h
+
+theorem matchXHex_ne_nil (s : List Char) (bs : Bytes) (h : matchXHex s = some bs) : bs ≠ [] := by
+  unfold matchXHex at h
+  repeat' split at h
+  all_goals first
+    | (simp at h; done)
+    | skip
+  rename_i bs' hne _
+  simp at h; subst h
+  intro e; exact hne e
+
+/-- **range_refused, closed form**: whatever text `parse` accepts, the result is
+    well formed — in particular its network number is ≤ 65534 and a station
+    has at least one octet.  No text yields network 65535 or above. -/
+theorem parse_wf (s : List Char) (a : Addr) (h : parse s = .ok a) : WFAddr a := by
+  unfold parse at h
+  split at h
+  · simp at h; subst h; simp [WFAddr, mkLocalBroadcast]
+  · split at h
+    · simp at h; subst h; simp [WFAddr, mkGlobalBroadcast]
+    · simp only at h
+      split at h
+      · rename_i pb hc
+        obtain ⟨p, b⟩ := pb
+        exact interp_wf p b a (matchCombined_ok _ p b hc) h
+      · split at h
+        · rename_i bs he
+          simp at h; subst h
+          simp [WFAddr, mkLocalStation, stationOK, ethGroups_ne_nil _ _ _ he]
+        · split at h
+          · rename_i bs hx
+            simp at h; subst h
+            simp [WFAddr, mkLocalStation, stationOK, matchXHex_ne_nil _ _ hx]
+          · split at h
+            · rename_i ns bs hnx
+              have hbs : bs ≠ [] := by
+                unfold matchNetXHex at hnx
+                split at hnx
+                · simp at hnx
+                  exact matchXHex_ne_nil _ _ hnx.1
+                · simp at hnx
+              split at h
+              · simp at h
+              · rename_i hn
+                simp at h; subst h
+                simp [WFAddr, mkRemoteStation, netOK, stationOK, hbs]; omega
+            · simp at h
+
+theorem parse_net_range (s : List Char) (a : Addr) (h : parse s = .ok a) :
+    ∀ n, a.net = some n → n ≤ 65534 := by
+  intro n hn
+  have := parse_wf s a h
+  unfold WFAddr at this
+  cases hty : a.ty <;> simp [hty, hn, netOK] at this <;> omega
+
 end BacVerif.C18
